@@ -469,15 +469,9 @@ class Surface(abstract.Surface):
         if not isinstance(value, (list, tuple)):
             raise ValueError("The input must be a list or tuple")
 
-        # Clean up the surface and control points
-        self.reset(evalpts=True, ctrlpts=True)
-
         # Assume that the user has prepared the lists correctly
         size_u = len(value)
         size_v = len(value[0])
-
-        # Estimate dimension by checking the size of the first element
-        self._dimension = len(value[0][0])
 
         # Make sure that all numbers are float type
         ctrlpts = [[] for _ in range(size_u * size_v)]
